@@ -33,7 +33,7 @@ static void lookups(S& s, const std::vector<double>& x, const std::string& gridc
 
 int main(int argc, char** argv) {
   Args ar = parse(argc, argv); quiet_gsl();
-  const double AB[][2] = {{0, 1}, {-3, 5}, {1, 1e4}, {1e-3, 7.5}, {2, 2 + 1e-9}};
+  const double AB[][2] = {{0, 1}, {-3, 5}, {1, 1e4}, {1e-3, 7.5}, {2, 2 + 1e-9}, {1000, std::nextafter(1000.0, 2000.0)}, {2.5e-3, std::nextafter(std::nextafter(2.5e-3, 1.0), 1.0)}, {6e9, 6e9 + 3e-6}, {-7.5, std::nextafter(-7.5, 0.0)}};   // incl. a and b one or two ulp apart
   unsigned nxmax = ar.reduced ? 12 : 65;
   for (unsigned nx = 2; nx <= nxmax; nx++) {
     for (auto& ab : AB) for (int lg = 0; lg < 2; lg++) {
